@@ -535,7 +535,26 @@ def rule_r7(p, res):
     r.check(bool(w) and any((dotted(c.func) or "") == "pickle.dump" for c in calls_in(w[0])), pe, pe.node, "pickle.dump must run inside the path-patching context")
 
 
-RULES = [rule_r1, rule_r2, rule_r3, rule_r4, rule_r5, rule_r6, rule_r7]
+def rule_r8(p, res):
+    r = res.rule("C16.R8", "image export moves the channel axis to the back without permuting the spatial axes")
+    f = p.func("menpo.image.base.channels_to_back")
+    r.instance(f)
+    px = f.params[0]
+    ok = False
+    bad = None
+    for k in calls_in(f.node):
+        nm = dotted(k.func) or ""
+        if nm == "np.rollaxis" and len(k.args) == 3 and norm(k.args[0]) == px and norm(k.args[1]) == "0" and norm(k.args[2]) in ("%s.ndim" % px, "len(%s.shape)" % px):
+            ok = True
+        elif nm == "np.moveaxis" and len(k.args) == 3 and norm(k.args[0]) == px and norm(k.args[1]) == "0" and norm(k.args[2]) == "-1":
+            ok = True
+        elif nm in ("np.swapaxes", "np.transpose") or (isinstance(k.func, ast.Attribute) and k.func.attr in ("swapaxes", "transpose", "T")):
+            bad = k
+    r.check(ok and bad is None, f, bad if bad is not None else f.node, "channels_to_back must roll axis 0 to the end (rollaxis(pixels, 0, ndim) / moveaxis(pixels, 0, -1)); a swap or transpose also "
+            "exchanges the spatial axes, so exported colour images come out transposed")
+
+
+RULES = [rule_r1, rule_r2, rule_r3, rule_r4, rule_r5, rule_r6, rule_r7, rule_r8]
 
 WITNESSES = [
     Witness("C16.W1", "menpo/io/output/base.py", "_export",
@@ -581,4 +600,8 @@ WITNESSES += [
             "        labels_to_mask = OrderedDict()\n        if len(lms_dict_group['labels']) != 0:\n            n_points = points.shape[0]",
             "        if len(lms_dict_group['labels']) != 0:\n            labels_to_mask = OrderedDict()\n            n_points = points.shape[0]",
             rule="C16.R3", construct="_parse_ljson_v3", note="seeded change C16-A (mapping only re-created for labelled groups)"),
+]
+
+WITNESSES += [
+    Witness("C16.W17", "menpo/image/base.py", "channels_to_back", "np.rollaxis(pixels, 0, pixels.ndim)", "np.swapaxes(pixels, 0, -1)", rule="C16.R8", construct="channels_to_back", note="seeded change R5-C16-B"),
 ]
